@@ -147,14 +147,19 @@ func runC08(c *Ctx) {
 		for _, fn := range fns {
 			for _, b := range fn.Blocks {
 				for _, in := range b.Instrs {
+					// a field that is read only to be logged does not feed the statistics
 					if v := valueOf(in); v != nil {
 						if f, _ := loadedField(v); f != nil && ownerOfField(valT, f) {
-							out[f.Name()] = true
+							if only, _ := w.flowsOnlyToLogging(v); !only {
+								out[f.Name()] = true
+							}
 						}
 					}
 					if fa, ok := in.(*ssa.FieldAddr); ok {
 						if f := fieldOfAddr(fa); f != nil && ownerOfField(valT, f) {
-							out[f.Name()] = true
+							if only, _ := w.flowsOnlyToLogging(fa); !only {
+								out[f.Name()] = true
+							}
 						}
 					}
 				}
